@@ -64,17 +64,27 @@ def str_to_num(s: str, fmt: str) -> Any[float, int]:
         sign, wholes, minutes, seconds = num_match.groups()
         # the sign applies to the whole magnitude, not only to the first field
         value = float(wholes) + float(minutes) / 60 + float(seconds or 0) / 3600
-        return -value if sign == "-" else value
+        return _finite(-value if sign == "-" else value)
 
     try:
-        return int(s)
+        return _finite(int(s))
     except ValueError:
         pass
 
     try:
-        return float(s)
+        return _finite(float(s))
     except ValueError:
         raise ValueError("Cannot convert string to number")
+
+
+def _finite(value):
+    # "1e999" is valid number syntax but no property can hold or render it
+    try:
+        if math.isfinite(value):
+            return value
+    except OverflowError:
+        pass
+    raise ValueError("Number out of range")
 
 
 def num_to_str(n: Optional[float], fmt: str) -> Optional[str]:
